@@ -61,6 +61,29 @@ def clock_encoder_form(V: Any) -> Optional[str]:
     return None
 
 
+def fixed_offset_conversion(v: Any) -> Optional[str]:
+    """datetime.fromtimestamp(n, tz) / .astimezone(tz) / .replace(tzinfo=tz) with tz a fixed offset."""
+    def fixed(tz: Any) -> Optional[str]:
+        txt = T.show(tz)
+        for marker in ("datetime.timezone", ".astimezone(", "tzinfo", "timedelta"):
+            if marker in txt:
+                return marker.strip("(.")
+        return None
+    if isinstance(v, tuple):
+        if v[:2] == ("app", "datetime.datetime.fromtimestamp") and len(v) >= 4:
+            tz = v[3][2] if (isinstance(v[3], tuple) and v[3][:1] == ("kw",)) else v[3]
+            r = fixed(tz)
+            if r:
+                return f"fromtimestamp(n, tz) with tz from {r}"
+        if v[:2] == ("app", "datetime.datetime.utcfromtimestamp"):
+            return "utcfromtimestamp"
+        for x in v:
+            r2 = fixed_offset_conversion(x)
+            if r2:
+                return r2
+    return None
+
+
 def run(prog: Program, rep: Report, tier: str) -> None:
     rep.rule("R11.1", "encoder normal form: hex(LE32(int(time.mktime(time.strptime(today ++ ' ' ++ HH ++ ':' ++ MM, DATEFMT ++ ' %H:%M'))))) where today = time.strftime(DATEFMT) (no time tuple: local today) with the SAME date directives on both sides", 3)
     rep.rule("R11.2", "decoder normal form: time.strftime('%H:%M', time.localtime(<unsigned LE32 of the 4 bytes>))", 1)
@@ -145,6 +168,14 @@ def run(prog: Program, rep: Report, tier: str) -> None:
         dec_apps = apps_in(v2)
         if T.contains_top(v2):
             rep.undecided("R11.2", "decoder normal form", whered, f"not understood: {T.contains_top(v2)}")
+        elif canon(v2) != canon(want_dec) and fixed_offset_conversion(v2):
+            # a recognised skeleton with a deviating part: the epoch value is converted with an explicit FIXED utc offset
+            # (timezone(...), timezone.utc, or the offset in force *now*: datetime.now().astimezone().tzinfo) instead of
+            # the host zone's rules at that instant - wrong across every DST change
+            rep.bad("R11.2", "decoder normal form", whered,
+                    f"decoder converts the timestamp with a fixed UTC offset ({fixed_offset_conversion(v2)}): {T.show(v2)[:220]}; expected the host zone's own rules at that instant "
+                    f"(time.localtime(n) / datetime.fromtimestamp(n) without tz) - the decoded HH:MM is off by the DST difference for timestamps on the other side of a DST change",
+                    key="R11.2|fixed-offset")
         else:
             rep.check_term(canon(v2) == canon(want_dec), v2, "R11.2", "decoder normal form", whered,
                       f"decoder computes {T.show(v2)[:300]}; expected time.strftime('%H:%M', time.localtime(LE32 of the four bytes))", key="R11.2|normal-form")
